@@ -1024,3 +1024,9 @@ m('F11-shortcut-taken-for-two-rests', 'C09', 'F11', '_tree_broadcast_common/shor
         return tree_broadcast_common(""",
   """    if len(rests) == 2:
         return tree_broadcast_common(""")
+m('G8-decorator-factory-drops-the-path-entry-type', 'C12', 'G8', 'register_pytree_node_class/factory@1-forwards-options', 'optree/registry.py',
+  """            register_pytree_node_class,
+            path_entry_type=path_entry_type,
+            namespace=cls,""",
+  """            register_pytree_node_class,
+            namespace=cls,""")
